@@ -24,7 +24,7 @@ theorem allTerm_flatten_getLast {t : Nat} {Z : List Bytes} (h : AllTerm t Z) (hn
 
 /-- what is kept when `roll` cuts at the context start: `max_context + 1` whole lines; on the
 slice side the region since `v` ends with the same lines, preceded by a terminator -/
-theorem roll_far {cfg : Config} {B pre w post pre' w' post' : Bytes} (W : Win B pre w post) (W' : Win B pre' w' post')
+theorem roll_far {cfg : Config} {B pre w post pre' w' post' : Bytes} (W : WinOf B pre w post) (W' : WinOf B pre' w' post')
     (Lw : List Bytes) (hall : AllTerm cfg.lineTerm.asByte Lw) (hfl : Lw.flatten = w) (k : Nat) (hk1 : 1 ≤ k)
     (hk : k + (cfg.maxContext + 1) = Lw.length)
     (c : Nat) (hc : c = ((Lw.take k).flatten).length) (hpre' : pre'.length = pre.length + c)
@@ -79,8 +79,8 @@ theorem roll_far {cfg : Config} {B pre w post pre' w' post' : Bytes} (W : Win B 
 
 /-- **`Core::roll` keeps the two searches related**: the reader's state after the roll, on the next
 window `w'` (which starts `consumed` bytes further), against the untouched slice-side state. -/
-theorem roll_sim {cfg : Config} {B pre w post pre' w' post' : Bytes} (W : Win B pre w post) (W' : Win B pre' w' post')
-    (hmc : cfg.maxContext ≠ 0) {s1 s2 : Core} (E : ESim cfg B w pre.length s1 s2) (hP : PostAt s2 w.length)
+theorem roll_sim {cfg : Config} {B pre w post pre' w' post' : Bytes} (W : WinOf B pre w post) (W' : WinOf B pre' w' post')
+    {s1 s2 : Core} (E : ESim cfg B w pre.length s1 s2) (hP : PostAt s2 w.length)
     (hX : XRel cfg B w pre.length s1 s2 w.length)
     (hwT : w = [] ∨ w.getLast? = some cfg.lineTerm.asByte)
     (hpre' : pre'.length = pre.length + (roll cfg w s2).2) (hw' : w.length - (roll cfg w s2).2 ≤ w'.length) :
@@ -92,20 +92,35 @@ theorem roll_sim {cfg : Config} {B pre w post pre' w' post' : Bytes} (W : Win B 
   have hBlen : B.length = pre.length + (w.length + post.length) := by rw [W.eq]; simp
   have hB'len : B.length = pre'.length + (w'.length + post'.length) := by rw [W'.eq]; simp
   have hroll : roll cfg w s2 =
-      ({ (countLines cfg w s2 (max (preceding w cfg.lineTerm.asByte cfg.maxContext) s2.lastLineVisited)) with
-          absoluteByteOffset := (countLines cfg w s2 (max (preceding w cfg.lineTerm.asByte cfg.maxContext)
-            s2.lastLineVisited)).absoluteByteOffset + max (preceding w cfg.lineTerm.asByte cfg.maxContext) s2.lastLineVisited,
+      ({ (countLines cfg w s2 (if cfg.maxContext = 0 then w.length
+            else max (preceding w cfg.lineTerm.asByte cfg.maxContext) s2.lastLineVisited)) with
+          absoluteByteOffset := (countLines cfg w s2 (if cfg.maxContext = 0 then w.length
+            else max (preceding w cfg.lineTerm.asByte cfg.maxContext) s2.lastLineVisited)).absoluteByteOffset +
+              (if cfg.maxContext = 0 then w.length
+                else max (preceding w cfg.lineTerm.asByte cfg.maxContext) s2.lastLineVisited),
           lastLineCounted := 0, lastLineVisited := 0,
-          pos := w.length - max (preceding w cfg.lineTerm.asByte cfg.maxContext) s2.lastLineVisited },
-        max (preceding w cfg.lineTerm.asByte cfg.maxContext) s2.lastLineVisited) := by
+          pos := w.length - (if cfg.maxContext = 0 then w.length
+            else max (preceding w cfg.lineTerm.asByte cfg.maxContext) s2.lastLineVisited) },
+        (if cfg.maxContext = 0 then w.length
+            else max (preceding w cfg.lineTerm.asByte cfg.maxContext) s2.lastLineVisited)) := by
     unfold roll
-    simp [hmc]
+    by_cases h0 : cfg.maxContext = 0
+    · simp [h0]
+    · simp [h0]
   rw [hroll] at hpre' hw' ⊢
   dsimp only at hpre' hw' ⊢
   generalize hcs : preceding w cfg.lineTerm.asByte cfg.maxContext = cs at *
-  generalize hc : max cs s2.lastLineVisited = c at *
-  have hcge : s2.lastLineVisited ≤ c := by omega
-  have hcle : c ≤ w.length := by omega
+  have hcdef : cfg.maxContext ≠ 0 →
+      (if cfg.maxContext = 0 then w.length else max cs s2.lastLineVisited) = max cs s2.lastLineVisited := by
+    intro h; rw [if_neg h]
+  have hcge0 : s2.lastLineVisited ≤ (if cfg.maxContext = 0 then w.length else max cs s2.lastLineVisited) := by
+    split <;> omega
+  have hcle0 : (if cfg.maxContext = 0 then w.length else max cs s2.lastLineVisited) ≤ w.length := by
+    split <;> omega
+  generalize (if cfg.maxContext = 0 then w.length else max cs s2.lastLineVisited) = c at *
+  have hc : cfg.maxContext ≠ 0 → max cs s2.lastLineVisited = c := fun h => (hcdef h).symm
+  have hcge : s2.lastLineVisited ≤ c := hcge0
+  have hcle : c ≤ w.length := hcle0
   have hco := countLines_other cfg w s2 c
   have hfl := countLines_flags cfg w s2 c
   refine ⟨hcle, ?_, ?_, ?_⟩
@@ -146,6 +161,9 @@ theorem roll_sim {cfg : Config} {B pre w post pre' w' post' : Bytes} (W : Win B 
     | inl h => left; omega
     | inr h => exact Or.inr h
   · -- the cut at the context start
+    by_cases hmc : cfg.maxContext = 0
+    · exact Or.inr (Or.inr hmc)
+    have hc := hc hmc
     have key : ∀ (Lw : List Bytes), AllTerm cfg.lineTerm.asByte Lw → Lw.flatten = w → s2.lastLineVisited < cs →
         ∃ Z, Far cfg w' 0 (w.length - c) Z ∧ Far cfg B s1.lastLineVisited (w.length - c + pre'.length) Z := by
       intro Lw hall hflat hlt
@@ -172,7 +190,7 @@ theorem roll_sim {cfg : Config} {B pre w post pre' w' post' : Bytes} (W : Win B 
       · left
         show s1.lastLineVisited = 0 + pre'.length
         omega
-      · right
+      · right; left
         refine ⟨rfl, ?_⟩
         have hwne : w ≠ [] := by intro h0; rw [h0] at hple; simp at hple; omega
         have hlast : w.getLast? = some cfg.lineTerm.asByte := by
@@ -182,9 +200,10 @@ theorem roll_sim {cfg : Config} {B pre w post pre' w' post' : Bytes} (W : Win B 
         exact key (splitLines cfg.lineTerm.asByte w)
           (goodLines_allTerm_of_last (splitLines_good _ _) (by rw [splitLines_flatten]; exact hlast))
           (splitLines_flatten _ _) (by omega)
-    | inr hL =>
+    | inr hL0 =>
+      have hL := hL0.resolve_right hmc
       obtain ⟨h0, Z, F2, F1⟩ := hL
-      right
+      right; left
       refine ⟨rfl, ?_⟩
       obtain ⟨x, hx, hxt⟩ := F2.x
       rw [h0] at hx
